@@ -114,6 +114,20 @@ Theorem C13_malformed_op_is_einval : forall al doc o,
 Proof. exact malformed_op_is_einval. Qed.
 Print Assumptions C13_malformed_op_is_einval.
 
+(* ---- what a failing operation leaves behind (the document must stay the caller's): the
+   document found, or — only for a move whose placement fails — the document without the source.
+   A move of the whole document is refused before anything is touched, for EVERY "path",
+   malformed ones included (there is no failing path on which the root has been released). *)
+Theorem C13_failed_op_document : forall al doc o e d,
+  apply_op al doc o = OErr e d -> d = doc \/ after_failed_move doc d.
+Proof. exact failed_op_document. Qed.
+Print Assumptions C13_failed_op_document.
+
+Theorem C13_move_of_root_rejected_first : forall al doc p,
+  p <> [] -> move_copy_strings al doc [] p true = OErr EINVAL doc.
+Proof. exact move_of_root_rejected_first. Qed.
+Print Assumptions C13_move_of_root_rejected_first.
+
 (* json_patch_unescape_token = the RFC's unescaping, all byte strings *)
 Theorem C13_unescape_token_spec : forall s, unescape_token s = unescape s.
 Proof. exact unescape_token_spec. Qed.
